@@ -9,6 +9,7 @@ import (
 type Style struct {
 	CoImport string // "co" (default name), "." (dot), or a renamed identifier
 	SeqAlso  bool   // the file already imports seq (as "seq")
+	SeqName  string // ... or under this name: an identifier, "." (dot import) or "_" (blank import)
 }
 
 type renderer struct {
@@ -209,11 +210,20 @@ func RenderCo(pkg, vmPath string, st Style, progs []*Prog) string {
 	}
 	if st.SeqAlso {
 		r.line("\t\"github.com/goghcrow/go-co/seq\"")
+	} else if st.SeqName != "" {
+		r.line("\t%s \"github.com/goghcrow/go-co/seq\"", st.SeqName)
 	}
 	r.line(")")
 	r.line("")
-	if st.SeqAlso {
+	switch {
+	case st.SeqAlso:
 		r.line("var _ = seq.Normal[int]")
+		r.line("")
+	case st.SeqName == ".":
+		r.line("var _ = Normal[int]")
+		r.line("")
+	case st.SeqName != "" && st.SeqName != "_":
+		r.line("var _ = %s.Normal[int]", st.SeqName)
 		r.line("")
 	}
 	for _, p := range progs {
